@@ -123,6 +123,114 @@ def oracle(ctx, rng, n_geom):
     ctx.stats["combinations_failing_to_evaluate"] = sorted(allc)
 
 
+def update_map(rr, x, lam, grid, L, regime=None):
+    """one successive-approximation update of the equal-pressure-loss system (Cheng-Todreas 1986 eqs. 27/30; `lam` = exponent of
+    the 2018 upgrade, None for the original transition law), written independently of dassh; also returns the subchannel losses"""
+    cc = rr.corr_constants
+    Re = rr.coolant_int_params['Re']
+    de = np.asarray(rr.params['de'], dtype=float)
+    deb = float(rr.bundle_params['de'])
+    s = np.asarray(cc['fs']['na'], dtype=float) / rr.bundle_params['area']
+    ReL = cc['ff']['Re_bnds'][0] * de / deb * np.asarray(cc['fs']['fs']['laminar'])
+    ReT = cc['ff']['Re_bnds'][1] * de / deb * np.asarray(cc['fs']['fs']['turbulent'])
+    Rei = Re * x * de / deb
+    y = np.clip(np.log10(Rei / ReL) / np.log10(ReT / ReL), 0.0, 1.0)
+    if regime == 'laminar':       # on the boundary itself round-off in Re_i / Re_iL would be amplified by y ** (1/3)
+        y = np.zeros(3)
+    elif regime == 'turbulent':
+        y = np.ones(3)
+    f = (np.asarray(cc['ff']['Cf_sc']['laminar']) / Rei) * (1 - y) ** (1 / 3.0) * ((1 - y ** lam) if lam else 1.0) \
+        + (np.asarray(cc['ff']['Cf_sc']['turbulent']) / Rei ** 0.18) * y ** (1 / 3.0)
+    k = rr.coolant_int_params['grid_loss_coeff'] * cc['grid']['n'] if grid else 0.0
+    t = f * L / de + k
+    a, c = math.sqrt(t[1] / t[0]), math.sqrt(t[1] / t[2])
+    x2 = 1.0 / (s[1] + s[0] * a + s[2] * c)
+    return np.array([a * x2, x2, c * x2]), t * x ** 2
+
+
+def gradient_oracle(ctx, rng, n_geom):
+    """Cheng-Todreas family (friction and flow split of the same family): the split the code returns must be a fixed point - to the
+    solver's own tolerance - of the equal-pressure-loss update with THAT family's friction law (Props/C12.lean: c12_gradient_iter
+    proves that a fixed point equalises friction + grid loss of the three subchannel types); without grids, in laminar and
+    turbulent flow the losses are equal to round-off and equal to the bundle friction gradient."""
+    from dassh.correlations import flowsplit_ctd as F
+    worst = dict(fixed_point=0.0, const=0.0, bundle=0.0)
+    for gi_ in range(n_geom):
+        n_ring = rng.choice([2, 3, 5, 8, 12])
+        dims = du.bundle_dims(rng, n_ring, 1)
+        if rng.random() < 0.3:
+            dims['wire_pitch'] = rng.choice([0.05, 0.6])
+        for fam in ('CTD', 'UCTD'):
+            lam = 7.0 if fam == 'UCTD' else None
+            for grid in (None, dict(corr='CDD', corr_coeff=None, loss_coeff=None, axial_positions=[0.3, 0.6], solidity=0.3)):
+                cool = du.const_material('c', k=70.0, cp=1270.0, rho=850.0, mu=2.5e-4)
+                corr = dict(corr_friction=fam, corr_flowsplit=fam, corr_mixing=fam)
+                rr0 = du.make_rr(dims, flow_rate=1.0, coolant=cool, corr=corr, spacer_grid=grid)
+                rr0.z = [0.0, 1.0]
+                rr0._init_static_correlated_params(650.0)
+                bl, bt = rr0.corr_constants['ff']['Re_bnds']
+                for Re in (10.0, 300.0, bl, rng.uniform(bl, 2 * bl), 5.0e3, rng.uniform(0.6 * bt, bt), bt * (1 - 1e-9), bt, 1.0e5, 1.0e6):
+                    mfr = Re * 2.5e-4 * rr0.bundle_params['area'] / rr0.bundle_params['de']
+                    rr = du.make_rr(dims, flow_rate=mfr, coolant=cool, corr=corr, spacer_grid=grid)
+                    rr.z = [0.0, 1.0]
+                    ctx.evals += 1
+                    calls = []
+                    orig = F._iterate
+
+                    def spy(*a, **k):
+                        try:
+                            return orig(*a, **k)
+                        except StopIteration:
+                            calls.append("StopIteration")
+                            raise
+                    F._iterate = spy
+                    try:
+                        rr._init_static_correlated_params(650.0)
+                        rr._update_coolant_int_params(650.0, use_mat_tracker=False)
+                    except Exception:
+                        continue          # evaluability is the business of oracle() above
+                    finally:
+                        F._iterate = orig
+                    x = np.array(rr.coolant_int_params['fs'], dtype=float)
+                    if not (np.all(np.isfinite(x)) and np.all(x > 0)):
+                        continue
+                    regime = 'laminar' if rr.coolant_int_params['Re'] <= bl else ('turbulent' if rr.coolant_int_params['Re'] >= bt else 'transition')
+                    g, loss = update_map(rr, x, lam, bool(grid), 1.0, regime if grid is None else None)
+                    info = dict(family=fam, n_ring=n_ring, Re=Re, dims=dims, grid=bool(grid), fs=x.tolist(), regime=regime,
+                                subchannel_losses=loss.tolist(), fixed_point_residual=np.abs(g - x).tolist())
+                    ctx.count("gradient:%s:%s:%s" % (fam, regime, "grid" if grid else "bare"))
+                    if grid is None and regime != 'transition':
+                        spread = float((loss.max() - loss.min()) / loss.mean())
+                        worst['const'] = max(worst['const'], spread)
+                        if spread > 1e-9:
+                            ctx.violation("c12-gradient-const:" + fam, "%s %s split: subchannel friction gradients differ by %.3g (relative)"
+                                          % (fam, regime, spread), **info)
+                        fb = float(rr.coolant_int_params['ff']) / float(rr.bundle_params['de'])
+                        rel = abs(fb - float(loss.mean())) / float(loss.mean())
+                        worst['bundle'] = max(worst['bundle'], rel)
+                        if rel > 1e-9:
+                            ctx.violation("c12-gradient-bundle:" + fam, "%s %s flow: common subchannel gradient differs from the bundle friction "
+                                          "factor's by %.3g (relative)" % (fam, regime, rel), **info)
+                    else:
+                        res = float(abs(g[1] - x[1]))      # the component the solver's stopping test looks at (|dx2| < 1e-5)
+                        if calls:
+                            # the code's iteration gave up and the approximate formula was used
+                            spread = float((loss.max() - loss.min()) / loss.mean())
+                            if res > 1e-4:
+                                ctx.violation("c12-gradient-not-equalised@flowsplit_ctd.py:_calc_transition_flowsplit_APPROX",
+                                              "%s transition iteration did not converge; the approximate fall-back split leaves the "
+                                              "subchannel pressure losses %.3g apart (relative)" % (fam, spread), **info)
+                            continue
+                        worst['fixed_point'] = max(worst['fixed_point'], res)
+                        if res > 1e-4:
+                            spread = float((loss.max() - loss.min()) / loss.mean())
+                            ctx.violation("c12-gradient:%s:%s" % (fam, "grid" if grid else "bare"),
+                                          "%s flow split (%s, %s grids) is not a solution of the equal-pressure-loss system with the %s "
+                                          "friction law: fixed-point residual %.3g (solver tolerance 1e-5), losses %.3g apart"
+                                          % (fam, regime, "with" if grid else "without", fam, res, spread), **info)
+    ctx.stats["gradient_worst"] = worst
+
+
 def run(ctx):
     rng = random.Random(12000 + ctx.seed)
     ctx.rule = ("oracle: all 6x5x4 friction/flow-split/mixing combinations (a random 30 per geometry in the quick tier, all on "
@@ -139,6 +247,7 @@ def run(ctx):
     if ok:
         ctx.prove("Dassh.Props.C12")
     oracle(ctx, rng, 6 if ctx.thorough else 2)
+    gradient_oracle(ctx, rng, 12 if ctx.thorough else 3)
     ctx.nontrivial = ctx.evals
     ctx.traces = ctx.evals
     ctx.trusted += ["T1 trace of the constant CTD/UCTD flow split; the iteration update is a hand model (Props/C12.lean) of the "
